@@ -286,6 +286,10 @@ def jsonable(content: Any) -> Any:
         return {str(jsonable(key)): jsonable(value) for key, value in content.items()}
     if isinstance(content, (list, tuple)):
         return [jsonable(item) for item in content]
+    if isinstance(content, float) and (content != content or content in (float('inf'), float('-inf'))):
+        # the bandwidth TLVs hold any 32-bit pattern the peer likes: json.dumps writes these
+        # as the bare words NaN / Infinity, which are not JSON
+        return str(content)
     if isinstance(content, (str, int, float, bool)) or content is None:
         return content
     return str(content)
